@@ -350,6 +350,32 @@ def insitu(ctx, idx, rng):
     ctx.event('insitu_retained_calls', n[1])
 
 
+def soak_case(ctx, idx, rng):
+    """The repository's own test-suite with the SVD-split / truncation oracles attached to every call of split_matrix_svd and retained_bond_indices."""
+    from .. import soak
+    n = [0, 0]
+
+    def around_svd(orig, A, q0, q1, tol):
+        snap = oracles.snapshot_arrays(A, q0, q1)
+        res = orig(A, q0, q1, tol)
+        n[0] += 1
+        if 0 <= tol < 1:
+            oracles.check_svd(ctx, snap[0], np.asarray(snap[1]), np.asarray(snap[2]), tol, (A, q0, q1), res, in_situ=True)
+        return res
+
+    def around_ret(orig, s, tol):
+        s0 = np.array(s, copy=True)
+        res = orig(s, tol)
+        n[1] += 1
+        if 0 <= tol < 1:
+            oracles.check_retained(ctx, s0, tol, s, res, in_situ=True)
+        return res
+    ctx.case(('soak', 'repository-test-suite'), sample={'functions_monitored': ['split_matrix_svd', 'retained_bond_indices']})
+    soak.run_suite(ctx, [('pytenet.bond_ops.split_matrix_svd', around_svd), ('pytenet.bond_ops.retained_bond_indices', around_ret)])
+    ctx.event('soak_svd_calls', n[0])
+    ctx.event('soak_retained_calls', n[1])
+
+
 SPEC = {
     'id': 'C12',
     'rule': ('exact: integer spectra with power-of-two norm (all arithmetic of the truncation rule exact), tolerance on and between '
@@ -368,6 +394,7 @@ SPEC = {
         Workload('random-retained', random_retained, quick=1500, thorough=180000),
         Workload('split-tensor', split_tensor, quick=1200, thorough=180000),
         Workload('insitu', insitu, quick=100, thorough=8000),
+        Workload('suite-soak', soak_case, quick=0, thorough=1, shardable=False),
     ],
     'shards': {'quick': 1, 'thorough': 16},
     'assumptions': ['numpy.linalg.svd of the full matrix is the independent spectrum', 'slack 1e-12 on threshold decisions that are not exact'],
